@@ -245,6 +245,71 @@ def canonCancelOrders (ev : Event) (before after : Eng) (a : Audit) : Eng × Aud
      { a with commanded := some c' })
   | _, _ => (after, a)
 
+/-! ### Digest of the event an audit record carries (C10 `rec_ev` / `run_ev`; additive) -/
+
+/-- number of `Underlying`s the harness's `parse_filter` builds for the label pairs of an `und:` filter:
+one per exchange that has both assets (an asset exists on an exchange iff one of the exchange's
+instruments has it as base or quote), a single placeholder when there is none -/
+def undExpansion (e : Eng) (l : List (Nat × Nat)) : Nat :=
+  let has := fun (x a : Nat) => e.instruments.any fun s => s.exchange == x && (s.base == a || s.quote == a)
+  let n := (l.map fun (b, q) => ((List.range e.links.length).filter fun x => has x b && has x q).length).foldl (· + ·) 0
+  if n == 0 then 1 else n
+
+def joinComma (l : List Nat) : String := ",".intercalate (l.map toString)
+
+/-- `engine_proto.rs filter_digest` -/
+def filterDigest (e : Eng) : Filter → String
+  | .none => "none"
+  | .exchanges l => "ex:" ++ joinComma l
+  | .instruments l => "ins:" ++ joinComma l
+  | .underlyings l => s!"und:{undExpansion e l}"
+
+def fmtOStateDigest : OState → String
+  | .active a => fmtActive a
+  | .inactive _ => "X"
+
+/-- `engine_proto.rs event_digest`: kind + identifying fields of an event. `pre` is the engine state
+BEFORE the event: the model's `.flat i` / `.position i side q` updates stand for the account TRADE the
+harness builds against that state (`build_event`): `flat` = opposite side of the open position, full
+quantity; a `.position` that keeps the open position's side with a smaller quantity (`reduce`) = opposite
+side, the difference; otherwise (`fill` on a flat instrument) the side and quantity as given. -/
+def eventDigest (pre : Eng) : Event → String
+  | .shutdown => "shutdown"
+  | .command (.sendOpenRequests rs) => "cmd_open " ++ joinOr (rs.map fmtOpenReq)
+  | .command (.sendCancelRequests rs) => "cmd_cancel " ++ joinOr (rs.map fmtCancel)
+  | .command (.cancelOrders f) => "cancel_orders " ++ filterDigest pre f
+  | .command (.closePositions f) => "close_positions " ++ filterDigest pre f
+  | .tradingState on => "trading " ++ (if on then "on" else "off")
+  | .update (.order i (.snapshot sn)) =>
+    s!"snap {i} {sn.cid} {fmtRat sn.quantity} {fmtRat sn.price} {fmtOStateDigest sn.state}"
+  | .update (.order i (.cancelResp c ok)) => s!"resp {i} {c} " ++ (if ok then "ok" else "err")
+  | .update (.order _ _) => "other"
+  | .update (.position i side q) =>
+    (match (pre.instruments[i]?).bind (·.position) with
+      | some (pside, pq) =>
+        if pside == side && q < pq then s!"trade {i} {fmtSide pside.opposite} {fmtRat (pq - q)}"
+        else s!"trade {i} {fmtSide side} {fmtRat q}"
+      | none => s!"trade {i} {fmtSide side} {fmtRat q}")
+  | .update (.flat i) =>
+    (match (pre.instruments[i]?).bind (·.position) with
+      | some (pside, pq) => s!"trade {i} {fmtSide pside.opposite} {fmtRat pq}"
+      | none => s!"trade {i} - 0")
+  | .update (.price i p) => s!"price {i} {fmtRat p}"
+  | .update .other => "other"
+
+/-- `engine_proto.rs output_kinds` on the model's audit: the `Commanded` output is named after the real
+`ActionOutput` variant `Engine::action` returns for the command (`SendCancelRequests` and `CancelOrders`
+both yield `ActionOutput::CancelOrders`), then `algo` iff the `AlgoOrders` output is in the audit -/
+def outputKinds (ev : Event) (a : Audit) : List String :=
+  (match a.commanded, ev with
+    | some _, .command (.sendCancelRequests _) => ["cmd:cancel_orders"]
+    | some _, .command (.cancelOrders _) => ["cmd:cancel_orders"]
+    | some _, .command (.sendOpenRequests _) => ["cmd:open_orders"]
+    | some _, .command (.closePositions _) => ["cmd:close_positions"]
+    | some _, _ => ["cmd:?"]
+    | none, _ => []) ++
+  (match a.algoInAudit with | some _ => ["algo"] | none => [])
+
 def eventKind : Event → String
   | .shutdown => "shutdown"
   | .command (.sendCancelRequests _) => "cmdCancel"
